@@ -8,6 +8,7 @@
 //!          seg = 0 <str>                          text
 //!              | 1 kind l r                        tag, kind 0 variable / 1 block / 2 comment; marker 0 none 1 '-' 2 '+'
 //!              | 2 l1 r1 <str> l2 r2               raw block with content
+//!              | 4 kind l r <str>                  tag with the given interior (programs of the delimiter-rewriting corpus)
 //!              | 3 kind <trail> nl                 line statement (kind 0) / line comment (kind 1) with trailing blanks;
 //!                                                  nl 0 none 1 LF 2 CRLF 3 CR (indentation belongs to the preceding text)
 //!   mode 1: payload = <str> (template source as is)
@@ -68,6 +69,22 @@ fn main() {
                         s.push_str(a);
                         s.push_str(l);
                         s.push_str(body);
+                        s.push_str(r);
+                        s.push_str(b);
+                    }
+                    4 => {
+                        let kind = c.i64();
+                        let l = mark(c.i64());
+                        let r = mark(c.i64());
+                        let body = c.str();
+                        let (a, b) = match kind {
+                            0 => (&d[2], &d[3]),
+                            1 => (&d[0], &d[1]),
+                            _ => (&d[4], &d[5]),
+                        };
+                        s.push_str(a);
+                        s.push_str(l);
+                        s.push_str(&body);
                         s.push_str(r);
                         s.push_str(b);
                     }
